@@ -681,6 +681,14 @@ def tested_vector(sv, node):
                     else:
                         flat.append((a, y))
             return R, flat, f[1]
+    for f in fs:
+        # the tested quantity is an immutable `let resid = V.norm_2() / n` that the term builder inlined: the fact carries its definition
+        if f[0] == "cmp" and f[1] in ("<=", "<") and f[3] == TOL and f[2][0] != "var" and norm_def(f[2]) is not None:
+            nd0 = norm_def(f[2])
+            if nd0[0] == ("op", "-", B_, ("call", MULT, P(0), X_)) and any(a_ is sv.main for a_ in ancestors(node)):
+                continue
+            tests = [a for a in ancestors(node) if a.get("k") == "If"]
+            return f[2], [(tests[0] if tests else node, f[2])], f[1]
     return None, [], None
 
 
@@ -762,7 +770,9 @@ def is_initial_residual(sv, V, r, at):
     for c in into:
         ifs = tuple(id(a) for a in ancestors(c) if a.get("k") == "Block" and a.get("_p") is not None and a["_p"].get("k") == "If")
         arms.setdefault(ifs[:1], []).append(c)
-    return all(ctx.term(max(cs, key=_pos)["args"][0]) == r for cs in arms.values())
+    def _src_is_r(t):
+        return t == r or (_val(t) == _val(r) and _val(t)[0] != "var")        # r itself, or (an immutable name of) the same expression b - A x
+    return all(_src_is_r(ctx.term(max(cs, key=_pos)["args"][0])) for cs in arms.values())
 
 
 def last_copy_source(sv, V, at):
